@@ -57,6 +57,13 @@ of_status_t of_linear_binary_code_decode_with_new_symbol (of_linear_binary_code_
 	ASSERT(new_symbol);
 	ASSERT(new_symbol_esi < ofcb->nb_total_symbols);
 
+	if (ofcb->pchk_matrix == NULL)
+	{
+		/* of_finish_decoding() has already consumed the linear system (ML decoding), so a symbol that arrives
+		 * now cannot be used any more. Simply ignore it if the block is decoded. */
+		OF_EXIT_FUNCTION
+		return (of_is_decoding_complete ((of_session_t*)ofcb)) ? OF_STATUS_OK : OF_STATUS_ERROR;
+	}
 	/*
 	 * Step 0: check if this is a fresh symbol, otherwise return
 	 */
